@@ -222,3 +222,50 @@ End Interpolate.
 Print Assumptions C06_interp_slices.
 Print Assumptions C06_interp_nan_iff_no_source.
 Print Assumptions C06_interp_times.
+
+(* ====================================================================================================
+   Self lookup: a query instant that IS a source timestamp gets the source sample at exactly that instant, in
+   every mode (before / closest / after) - x.value_from(x) returns x's own values, and a feature sampled at the
+   instants of a subset of its own timestamps is read back unchanged. *)
+Lemma vf_spec_hit mode x src r : (mode = 0 \/ mode = 1 \/ mode = 2) -> In x src -> vf_spec mode x src r ->
+  exists j, r = Some j /\ (j < length src)%nat /\ nth j src 0 = x.
+Proof.
+  intros Hm Hin Hs. unfold vf_spec in Hs.
+  destruct Hm as [->|[->| ->]]; cbn in Hs.
+  - destruct r as [j|]; cbn in Hs.
+    + destruct Hs as (Hj & Hle & Hall). exists j. split; [reflexivity|split; [exact Hj|]].
+      rewrite Forall_forall in Hall. specialize (Hall x Hin). lia.
+    + rewrite Forall_forall in Hs. specialize (Hs x Hin). lia.
+  - destruct r as [j|]; cbn in Hs; [|contradiction].
+    destruct Hs as (Hj & Hall). exists j. split; [reflexivity|split; [exact Hj|]].
+    rewrite Forall_forall in Hall. specialize (Hall x Hin). lia.
+  - destruct r as [j|]; cbn in Hs.
+    + destruct Hs as (Hj & Hle & Hall). exists j. split; [reflexivity|split; [exact Hj|]].
+      rewrite Forall_forall in Hall. specialize (Hall x Hin). lia.
+    + rewrite Forall_forall in Hs. specialize (Hs x Hin). lia.
+Qed.
+
+Lemma Forall2_impl_in {A B} (P Q : A -> B -> Prop) l l' :
+  (forall a b, In a l -> P a b -> Q a b) -> Forall2 P l l' -> Forall2 Q l l'.
+Proof.
+  intros H F. induction F as [|a b l l' Hab F IH]; constructor.
+  - apply H; [left; reflexivity|exact Hab].
+  - apply IH. intros a' b' Hin. apply H. right. exact Hin.
+Qed.
+
+Theorem C06_self_lookup : forall mode qs src,
+  (mode = 0 \/ mode = 1 \/ mode = 2) -> src <> [] -> sortedZ src -> sortedZ qs ->
+  (forall x, In x qs -> In x src) ->
+  Forall2 (fun x r => exists j, r = Some j /\ (j < length src)%nat /\ nth j src 0 = x) qs (vf_interval mode qs src 0%nat).
+Proof.
+  intros mode qs src Hm Hne Hs Hq Hsub.
+  eapply Forall2_impl_in; [|exact (C06_answers mode qs src Hm Hne Hs Hq)].
+  intros x r Hin Hspec. cbv beta in *. apply (vf_spec_hit mode x src r Hm (Hsub x Hin) Hspec).
+Qed.
+Print Assumptions C06_self_lookup.
+
+Example C06_self_lookup_nonvacuous :
+  vf_interval 0 [10; 30] [10; 20; 30] 0%nat = [Some 0%nat; Some 2%nat]
+  /\ vf_interval 1 [10; 30] [10; 20; 30] 0%nat = [Some 0%nat; Some 2%nat]
+  /\ vf_interval 2 [10; 30] [10; 20; 30] 0%nat = [Some 0%nat; Some 2%nat].
+Proof. vm_compute. repeat split; reflexivity. Qed.
